@@ -65,14 +65,16 @@ class C27(Prop):
     level_note = ('Partial: the server side is the fake pool + minisql (rollback/commit semantics and what the server does on deadlock, lock wait '
                   'timeout and connection loss are assumptions listed below); PyMySQL error classes come from a shim reproducing 1.1.2 error_map; '
                   'interleaving of concurrent transactions and the behaviour of real aiomysql/MySQL beyond the listed assumptions are outside the claim.')
-    budget = {'quick': 3600, 'thorough': 40000}
+    budget = {'quick': 4000, 'thorough': 40000}
     search_budget = {'quick': 3000, 'thorough': 60000}
     rule = ('case = (initial rows, body of upsert/insert/update/select statements over two tables each issued through its Transaction.execute_* '
             'method with or without a query_name, run inside one @transaction function or as a single Database.execute_* call, fault script per '
             'attempt = statement index x error); every run contains the exhaustive layer {12 fixed bodies: plain, all-instrumented, mixed with reads, '
             'single-statement Database calls} x {every statement index incl. acquire, START TRANSACTION, COMMIT and one past} x {every (class, code) of '
             'the error list} plus execute_many batches of {1, 2, 999, 1000, 1001, 2500} argument rows (single Database.execute_many calls with a fault at every statement of the 1st, 2nd and 3rd '
-            'transaction the call might open, and inside @transaction bodies) plus random multi-attempt sequences (half of the faults aimed at body statements, half of the statements instrumented); '
+            'transaction the call might open, and inside @transaction bodies) plus runs of L consecutive transient failures of one operation for L in {1..12, 20, 50} (thorough: also 100, 200): the same error at the same statement every time for '
+            'every transient error, errors and positions cycling, and a run ended by a non-transient error; 10 % of the random cases carry 7-16 fault scripts; '
+            'plus random multi-attempt sequences (half of the faults aimed at body statements, half of the statements instrumented); '
             'non-trivial = at least one injected fault fired; distinct by full case')
     trusted = [
         'harness/minisql (MiniDB, SEMANTICS list) as the MySQL server; harness/minisql/fakepool.py as aiomysql',
@@ -217,6 +219,26 @@ end HailVerif.Generated.SqlTimer
                         yield {**fx, 'scripts': [None, [idx, err]]}
                         yield {**fx, 'scripts': [None, None, [idx, err]]}
             yield {'init': {'100': 1}, 'body': [['w', 100, 1], ['m', 100, 1, 1 - i % 2, size], ['r', 101, 0]], 'scripts': [[N_PRE + 1, 'op:1205'], [N_PRE + 3, 'op:1040']]}
+        yield from self.long_runs(self.RUN_LENGTHS)
+
+    # lengths of runs of CONSECUTIVE transient failures of one operation (the property puts no bound on the number of retries)
+    RUN_LENGTHS = list(range(1, 13)) + [20, 50]
+    SOAK_LENGTHS = [100, 200]         # thorough tier only
+
+    def long_runs(self, lengths):
+        """L consecutive attempts each failing with a transient error, then a clean one: (a) the same error at the same statement every
+        time, for every transient error; (b) errors and statement positions cycling; (c) the run ended by a non-transient error"""
+        tx = {'init': {'1': 5}, 'body': [['w', 1, 1], ['u', 2, 3, 1]]}
+        single = {'init': {'1': 5}, 'body': [['w', 1, 10, 1]], 'mode': 'db'}
+        tr = sorted(TRANSIENT)
+        for L in lengths:
+            for fx in (tx, single):
+                n = len(fx['body'])
+                for j, err in enumerate(tr):
+                    if L <= 12 or j < 2:
+                        yield {**fx, 'scripts': [[(j % (n + N_PRE + 1)), err]] * L}
+                yield {**fx, 'scripts': [[(a * 3 + 1) % (n + N_PRE + 1), tr[a % len(tr)]] for a in range(L)]}
+                yield {**fx, 'scripts': [[(a + 2) % (n + N_PRE + 1), tr[(a * 5 + 1) % len(tr)]] for a in range(L)] + [[N_PRE, 'op:1054']]}
 
     def random_stmt(self, rng, db_mode=False):
         kind = rng.choice(['u', 'u', 'w', 'w', 'i', 'r', 'm', 'm'] if db_mode else ['u', 'u', 'w', 'w', 'i', 'r', 'a', 'm'])
@@ -238,7 +260,7 @@ end HailVerif.Generated.SqlTimer
             body = [self.random_stmt(rng) for _ in range(rng.choice([0, 1, 2, 2, 3, 3, 4, 5]))]
         n = len(body)
         scripts = []
-        for _ in range(rng.choice([0, 1, 1, 2, 2, 3, 4, 6])):
+        for _ in range(rng.choice([0, 1, 1, 2, 2, 3, 4, 6]) if rng.random() < 0.9 else rng.randint(7, 16)):
             r = rng.random()
             if r < 0.1:
                 scripts.append(None)
@@ -254,6 +276,8 @@ end HailVerif.Generated.SqlTimer
 
     def cases(self, rng, n, tier):
         ex = list(self.exhaustive())
+        if tier == 'thorough':
+            ex += list(self.long_runs(self.SOAK_LENGTHS))
         yield from ex
         for _ in range(max(0, n - len(ex))):
             yield self.random_case(rng)
@@ -469,6 +493,8 @@ end HailVerif.Generated.SqlTimer
         if line.startswith('attempts='):
             a = int(line.split()[0].split('=')[1])
             tags.append(f'attempts={min(a, 4)}')
+            r = a - 1       # every attempt but the last one was followed by a retry
+            tags.append('consecutive-retries=' + (f'{r:02d}' if r <= 12 else '13-19' if r < 20 else '20-49' if r < 50 else '50-99' if r < 100 else '100+'))
             tags.append('result=' + ('ok' if 'result=ok' in line else 'err'))
         for s in c['scripts']:
             if s is not None:
